@@ -9,6 +9,7 @@
 mod ir;
 mod leafgen;
 mod poolrun;
+mod publishrun;
 
 use plonky2::field::types::{Field, PrimeField64};
 use plonky2::iop::generator::GeneratedValues;
@@ -805,6 +806,7 @@ fn main() {
         "replay" => cmd_replay(&args[2..]),
         "call" => cmd_call(&args[2..]),
         "poolrun" => poolrun::run(&args[2..]),
+        "publishrun" => publishrun::run(&args[2..]),
         _ => panic!("usage: csx-emit emit|replay ..."),
     }
 }
